@@ -18,7 +18,10 @@ def _scenario(what, h0, sp, h1, s0, s1, target, clean):
             w.reset_max_open()
             if not views_ok(w.c, w, objs, ABSENT):
                 return False
-            return w.max_open() <= 1  # C18: bulk reads keep at most one pack or loose file open at a time
+            if w.max_open() > 1:  # C18: bulk reads keep at most one pack or loose file open at a time
+                return False
+            w.c.close()
+            return w.open_fds(True) == 0  # C18: nothing (index connections included) stays open after close()
         if what == 'validate':
             if not w.c.validate().is_valid():
                 return False
